@@ -184,6 +184,34 @@ func setupRoutes(module *ast.Module, filePath string, forceInterpreter ...bool) 
 		}
 	}
 
+	// And for a route whose declared input or return type is an imported name:
+	// compiled routes only know the type definitions of the module itself
+	// (setCompiledTypeDefs below) and would accept any body for such a type.
+	imported := map[string]bool{}
+	for _, item := range module.Items {
+		if imp, ok := item.(*ast.ImportStatement); ok && imp.Selective {
+			for _, n := range imp.Names {
+				if n.Alias != "" {
+					imported[n.Alias] = true
+				} else {
+					imported[n.Name] = true
+				}
+			}
+		}
+	}
+	for _, item := range module.Items {
+		route, isRoute := item.(*ast.Route)
+		if !isRoute || !useCompiler || len(imported) == 0 {
+			continue
+		}
+		for _, t := range []ast.Type{route.InputType, route.ReturnType} {
+			if named, ok := t.(ast.NamedType); ok && imported[named.Name] {
+				printInfo(fmt.Sprintf("Route %s declares the imported type %s, using interpreter mode", route.Path, named.Name))
+				useCompiler = false
+			}
+		}
+	}
+
 	// Warn early when an LLM route has no provider configured, rather than
 	// letting every request fail with an opaque "undefined object" error.
 	if os.Getenv("GLYPH_LLM_PROVIDER") == "" && moduleInjectsLLM(module) {
